@@ -1,5 +1,5 @@
 ENGINES = [
- {"name": "tlc", "path": "lib/vlib.py", "serves_properties": ["C02"],
+ {"name": "tlc", "path": "lib/vlib.py", "serves_properties": ["C02", "C04", "C05", "C17"],
   "kind_free_text": "TLC model checking of the TLA+ specifications in spec/, and TLC validation (fold mode) of executions recorded from the real code by the harnesses in harness/"},
 ]
 NOTES = ("One orchestrator (bin/vcheck) per property. Specifications live in spec/ (Word, HexISA, ...); harnesses in harness/ are "
@@ -15,4 +15,21 @@ CHECKS = {
           "memory writes, I/O, exit value. A corrupted canary record must be rejected in every run.",
   "note": "Trusts the transcription of hexb.pdf into HexISA.tla, TLC, and the HEX_VERIF recorder; 32-bit register space is "
           "sampled (corners + seeded random), not enumerated."},
+ "C04": {"level": "model_checking", "design_ref": "DESIGN.md 2.3, 5 (C04)",
+  "technique": "TLC evaluation of the encoder round trip over value classes + TLC validation of hexasm's emitted prefix chains",
+  "text": "AsmEncode!ChainOK (the ISA's own PFIX/NFIX rule) is the oracle. TLC checks the assembler-shaped encoder for every 16-bit value "
+          "and for the 32-bit nibble-class grid; every chain hexasm emits for 12 mnemonics x boundary/random values x both literal forms is "
+          "decoded by TLC from the image and must present exactly the source value, a wrong length derailing the walk.",
+  "note": "2^32 values are covered by classes and seeded samples, not enumerated (TLC: 21k values/s/JVM). Trusts Word.tla arithmetic."},
+ "C05": {"level": "model_checking", "design_ref": "DESIGN.md 2.3, 5 (C05)",
+  "technique": "TLC model checking of the relaxation mechanism at scaled radix + TLC validation of emitted images against the source directive list",
+  "text": "AsmRelax (hexasm's relaxation as a state machine, radix 2 and 4) is model-checked over ALL small programs for termination and "
+          "correct final layouts; AsmLayout!LayoutVerdict judges every image hexasm emits for boundary sweeps, coupled references across "
+          "DATA gaps, random multi-label programs and the shipped .S files; non-termination is a CPU-budget timeout.",
+  "note": "Radix 16 is not model-checked; transfer to the code is through the conformance families. Labels unique per program."},
+ "C17": {"level": "model_checking", "design_ref": "DESIGN.md 2.3, 5 (C17)",
+  "technique": "TLC trace validation of listing lines against the walked binary (AsmLayout!ListingVerdict)",
+  "text": "Each --instrs / -S listing line (offset, size, shown operand) is checked by TLC against AsmLayout!Walk of the binary of the same "
+          "source, for the C05 families, the shipped .S files and xcmp -S of tests/x.",
+  "note": "Pure trace validation (states/transitions are nominal). The final 'N bytes' line is not judged (the property does not mention it)."},
 }
